@@ -26,3 +26,26 @@ Example C10_order_example :
     [(mk «"b.s"» 4 6, 0%nat); (mk «"a.s"» 9 9, 1%nat); (mk «"a.s"» 2 5, 2%nat); (mk «"a.s"» 2 5, 3%nat); ((None, range0), 4%nat)]
   = [((None, range0), 4%nat); (mk «"a.s"» 2 5, 2%nat); (mk «"a.s"» 2 5, 3%nat); (mk «"a.s"» 9 9, 1%nat); (mk «"b.s"» 4 6, 0%nat)].
 Proof. vm_compute. reflexivity. Qed.
+
+(* (2) No duplicates.  The output stage (`DiagnosticItem::sort_for_output`: stable sort, then drop every item that
+   agrees with an earlier one in all fields) returns a list in which no item is the same as an earlier one; every
+   produced item is represented (itself or an identical earlier one); nothing is invented; the result is still
+   sorted and is a sub-sequence of the sorted list (so the relative order of the survivors is unchanged). *)
+Definition C10_nodup_statement : Prop :=
+  forall (A : Type) (key : A -> okey) (same : A -> A -> bool) (l : list A),
+    let out := sort_for_output key same l in
+    (forall pre x post y, out = pre ++ x :: post -> In y pre -> same x y = false) /\
+    (forall x, In x l -> exists y, In y out /\ (y = x \/ same x y = true)) /\
+    (forall x, In x out -> In x l) /\
+    StronglySorted (le key) out /\
+    subseq out (sort_items key l).
+Theorem C10_no_duplicates : C10_nodup_statement.
+Proof. exact (@sort_for_output_facts). Qed.
+Check C10_no_duplicates : C10_nodup_statement.
+Print Assumptions C10_no_duplicates.
+
+Example C10_nodup_example :
+  let mk f a t := mko (Some f) (mkrange (mkpos 0 0 a) (mkpos 0 0 a)) 0 t [] in
+  output_order [mk «"b.s"» 4 «"x"»; mk «"a.s"» 9 «"y"»; mk «"a.s"» 2 «"z"»; mk «"a.s"» 9 «"y"»; mk «"a.s"» 2 «"w"»]
+  = [mk «"a.s"» 2 «"z"»; mk «"a.s"» 2 «"w"»; mk «"a.s"» 9 «"y"»; mk «"b.s"» 4 «"x"»].
+Proof. vm_compute. reflexivity. Qed.
